@@ -94,8 +94,8 @@ func (p *signerPool) init() {
 
 // signer kinds. "mgr" = the package's own generator (VerifGenerateCert) with arbitrary
 // start/end; the rest are made here.
-var signerKinds = []string{
-	"mgr", "mgr", "ecdsa-p256", "ecdsa-p256", "ecdsa-p384", "ed25519",
+var goodSigners = []string{"mgr", "mgr", "mgr", "ecdsa-p256", "ecdsa-p256", "ecdsa-p384", "ed25519"}
+var badSigners = []string{
 	"rsa-pkcs1-sha256", "rsa-pkcs1-sha384", "rsa-pkcs1-sha512", "rsa-pss-sha256", "rsa-pss-sha384", "rsa-pss-sha512",
 	"rsakey-ecdsa-issuer", "eckey-rsa-issuer", "garbage",
 }
@@ -110,58 +110,103 @@ type certSpec struct {
 	ValClass  string        `json:"val_class"`
 }
 
-var lifeClasses = []struct {
+type lifeClass struct {
 	name string
 	d    time.Duration
-}{
-	{"1s", time.Second}, {"1h", time.Hour}, {"1d", 24 * time.Hour}, {"13d", 13 * 24 * time.Hour},
-	{"14d-1s", maxLifetime - time.Second}, {"14d", maxLifetime}, {"14d", maxLifetime},
-	{"14d+1s", maxLifetime + time.Second}, {"14d+1h", maxLifetime + time.Hour}, {"15d", 15 * 24 * time.Hour},
-	{"28d", 28 * 24 * time.Hour}, {"365d", 365 * 24 * time.Hour},
 }
 
-func drawCertSpec(rt *rapid.T, label string, simple bool) certSpec {
+var goodLives = []lifeClass{
+	{"14d", maxLifetime}, {"14d-1s", maxLifetime - time.Second}, {"13d", 13 * 24 * time.Hour}, {"1d", 24 * time.Hour}, {"1h", time.Hour}, {"1s", time.Second},
+}
+var badLives = []lifeClass{
+	{"14d+1s", maxLifetime + time.Second}, {"14d+1h", maxLifetime + time.Hour}, {"15d", 15 * 24 * time.Hour}, {"28d", 28 * 24 * time.Hour}, {"365d", 365 * 24 * time.Hour},
+}
+
+// faults says which conjuncts of the predicate the generator INTENDS to break for this
+// certificate (construction instead of rejection). The oracle never looks at it: the
+// verdict is recomputed from the DER bytes, the hash list and the clock.
+type faults struct{ signer, life, validity bool }
+
+func drawCertSpec(rt *rapid.T, label string, f faults) certSpec {
 	var c certSpec
-	c.Signer = rapid.SampledFrom(signerKinds).Draw(rt, label+"Signer")
+	if f.signer {
+		c.Signer = rapid.SampledFrom(badSigners).Draw(rt, label+"Signer")
+	} else {
+		c.Signer = rapid.SampledFrom(goodSigners).Draw(rt, label+"Signer")
+	}
 	c.Seed = rapid.IntRange(0, 1<<16).Draw(rt, label+"Seed")
-	li := rapid.IntRange(0, len(lifeClasses)-1).Draw(rt, label+"Life")
-	if simple || rapid.IntRange(0, 2).Draw(rt, label+"LifeOK") > 0 {
-		li = li % 7 // mostly admissible lifetimes, so that other conjuncts decide
+	lc := goodLives
+	if f.life {
+		lc = badLives
 	}
-	c.Life, c.LifeClass = lifeClasses[li].d, lifeClasses[li].name
+	l := lc[rapid.IntRange(0, len(lc)-1).Draw(rt, label+"Life")]
+	c.Life, c.LifeClass = l.d, l.name
 	sec := time.Second
-	vk := rapid.IntRange(0, 11).Draw(rt, label+"Val")
-	if simple && vk > 5 {
-		vk = 0
-	}
-	switch vk {
-	case 0, 1, 2, 3:
-		// interior: NotBefore strictly before, NotAfter strictly after (lifetime >= 2s needed)
-		c.ValClass = "valid"
-		if c.Life < 2*sec {
-			c.NBOff = 0 // 1s lifetime: [now, now+1s]
-			c.ValClass = "valid-nb-edge"
-		} else {
-			c.NBOff = -time.Duration(rapid.Int64Range(1, int64(c.Life/sec)-1).Draw(rt, label+"Age")) * sec
+	if !f.validity {
+		switch rapid.IntRange(0, 5).Draw(rt, label+"Val") {
+		case 0, 1, 2:
+			// interior: NotBefore strictly before, NotAfter strictly after (needs a lifetime >= 2s)
+			c.ValClass = "valid"
+			if c.Life < 2*sec {
+				c.ValClass, c.NBOff = "valid-nb-edge", 0 // 1s lifetime: [now, now+1s]
+			} else {
+				c.NBOff = -time.Duration(rapid.Int64Range(1, int64(c.Life/sec)-1).Draw(rt, label+"Age")) * sec
+			}
+		case 3:
+			c.ValClass, c.NBOff = "valid-nb-edge", 0 // NotBefore == whole second of now
+		case 4:
+			c.ValClass, c.NBOff = "valid-na-1s", -c.Life+sec // expires within the second after now's whole second
+		case 5:
+			c.ValClass, c.NBOff = "na-edge", -c.Life // NotAfter == whole second of now: valid iff now has no sub-second part
 		}
-	case 4:
-		c.ValClass, c.NBOff = "valid-nb-edge", 0 // NotBefore == whole second of now
-	case 5:
-		c.ValClass, c.NBOff = "na-edge", -c.Life // NotAfter == whole second of now: valid iff now has no sub-second part
-	case 6:
+		return c
+	}
+	switch rapid.IntRange(0, 6).Draw(rt, label+"Val") {
+	case 0:
 		c.ValClass, c.NBOff = "future+1s", sec
-	case 7:
+	case 1:
 		c.ValClass, c.NBOff = "future", time.Duration(rapid.Int64Range(2, 40*86400).Draw(rt, label+"Future"))*sec
-	case 8:
+	case 2:
 		c.ValClass, c.NBOff = "expired-1s", -c.Life-sec
-	case 9:
+	case 3:
 		c.ValClass, c.NBOff = "expired", -c.Life-time.Duration(rapid.Int64Range(2, 40*86400).Draw(rt, label+"Expired"))*sec
-	case 10:
+	case 4:
 		c.ValClass, c.NBOff = "future+skew", skew
-	case 11:
+	case 5:
 		c.ValClass, c.NBOff = "expired-skew", -c.Life-skew
+	case 6:
+		c.ValClass, c.NBOff = "na-edge", -c.Life
 	}
 	return c
+}
+
+// drawFaults picks how many conjuncts to break: none 25 %, exactly one 45 %, several 30 %.
+func drawFaults(rt *rapid.T, label string) (f faults, hash bool) {
+	set := func(i int) {
+		switch i {
+		case 0:
+			hash = true
+		case 1:
+			f.signer = true
+		case 2:
+			f.life = true
+		case 3:
+			f.validity = true
+		}
+	}
+	switch k := rapid.IntRange(0, 19).Draw(rt, label+"FaultCount"); {
+	case k < 5:
+	case k < 14:
+		set(rapid.IntRange(0, 3).Draw(rt, label+"Fault"))
+	default:
+		mask := rapid.IntRange(0, 15).Draw(rt, label+"FaultMask")
+		for i := 0; i < 4; i++ {
+			if mask&(1<<i) != 0 {
+				set(i)
+			}
+		}
+	}
+	return
 }
 
 // make builds the DER bytes. tvs is the verification instant truncated to the second.
@@ -232,9 +277,10 @@ func (c certSpec) make(tvs time.Time) []byte {
 // ---------------------------------------------------------------------------
 // hash lists
 
-var hashKinds = []string{
-	"sha256(c0)", "sha256(c0)", "sha256(c0)", "sha256(c1)", "wrong", "bitflip", "truncated", "extended",
-	"c0-digest-as-sha3-256", "c0-digest-as-blake2s-256", "c0-digest-as-identity", "c0-digest-as-dbl-sha2-256", "c0-digest-as-keccak-256",
+// distractors never equal the sha2-256 multihash of c0 (except "sha256(c1)" when the chain repeats c0)
+var distractors = []string{
+	"wrong", "bitflip", "truncated", "extended", "sha256(c1)",
+	"c0-digest-as-sha3-256", "c0-digest-as-blake2s-256", "c0-digest-as-identity", "c0-digest-as-dbl-sha2-256", "c0-digest-as-keccak-256", "c0-digest-as-sha2-512",
 	"sha2-512(c0)", "sha3-256(c0)", "sha2-256-trunc-of-sha512(c0)",
 }
 
@@ -260,6 +306,9 @@ func mkHash(rt *rapid.T, kind string, seed int, chain [][]byte) (multihash.Decod
 	case "sha256(c0)":
 		return enc(s0[:], multihash.SHA2_256)
 	case "sha256(c1)":
+		if len(chain) < 2 {
+			c1 = append(append([]byte(nil), c0...), 0) // no second certificate: some other blob
+		}
 		s := sha256.Sum256(c1)
 		return enc(s[:], multihash.SHA2_256)
 	case "wrong":
@@ -284,6 +333,8 @@ func mkHash(rt *rapid.T, kind string, seed int, chain [][]byte) (multihash.Decod
 		return enc(s0[:], multihash.DBL_SHA2_256)
 	case "c0-digest-as-keccak-256":
 		return enc(s0[:], multihash.KECCAK_256)
+	case "c0-digest-as-sha2-512":
+		return enc(s0[:], multihash.SHA2_512)
 	case "sha2-512(c0)":
 		s := sha512.Sum512(c0)
 		return enc(s[:], multihash.SHA2_512)
@@ -303,22 +354,21 @@ func mkHash(rt *rapid.T, kind string, seed int, chain [][]byte) (multihash.Decod
 type verdictParts struct {
 	parses  bool
 	member  bool
-	rsa     string // "no" | "yes" | "ambiguous"
-	rsaPSS  bool   // self-signed RSA with an RSA-PSS signature
+	rsa     bool // RSA public key, or signed with any RSA signature algorithm (PKCS#1 v1.5 or PSS)
 	lifeOK  bool
 	validAt bool
 }
 
-func isRSASig(a x509.SignatureAlgorithm) (rsaSig, pss bool) {
+func isRSASig(a x509.SignatureAlgorithm) bool {
 	switch a {
-	case x509.MD2WithRSA, x509.MD5WithRSA, x509.SHA1WithRSA, x509.SHA256WithRSA, x509.SHA384WithRSA, x509.SHA512WithRSA:
-		return true, false
-	case x509.SHA256WithRSAPSS, x509.SHA384WithRSAPSS, x509.SHA512WithRSAPSS:
-		return true, true
+	case x509.MD2WithRSA, x509.MD5WithRSA, x509.SHA1WithRSA, x509.SHA256WithRSA, x509.SHA384WithRSA, x509.SHA512WithRSA,
+		x509.SHA256WithRSAPSS, x509.SHA384WithRSAPSS, x509.SHA512WithRSAPSS:
+		return true
 	}
-	return false, false
+	return false
 }
 
+// judge evaluates the conjuncts of the statement for the server certificate der.
 func judge(der []byte, hashes []multihash.DecodedMultihash, now time.Time) verdictParts {
 	var v verdictParts
 	sum := sha256.Sum256(der)
@@ -328,22 +378,12 @@ func judge(der []byte, hashes []multihash.DecodedMultihash, now time.Time) verdi
 		return v
 	}
 	v.parses = true
-	rsaKey := cert.PublicKeyAlgorithm == x509.RSA
-	rsaSig, pss := isRSASig(cert.SignatureAlgorithm)
-	switch {
-	case rsaKey && rsaSig:
-		v.rsa, v.rsaPSS = "yes", pss
-	case !rsaKey && !rsaSig:
-		v.rsa = "no"
-	default:
-		v.rsa = "ambiguous"
-	}
+	v.rsa = cert.PublicKeyAlgorithm == x509.RSA || isRSASig(cert.SignatureAlgorithm)
 	v.lifeOK = cert.NotAfter.Sub(cert.NotBefore) <= maxLifetime
 	v.validAt = !now.Before(cert.NotBefore) && !now.After(cert.NotAfter)
 	return v
 }
 
-// failing conjuncts, counting an ambiguous RSA status as not failing.
 func (v verdictParts) failing() []string {
 	var f []string
 	if !v.member {
@@ -352,7 +392,7 @@ func (v verdictParts) failing() []string {
 	if !v.parses {
 		return append(f, "unparsable")
 	}
-	if v.rsa == "yes" {
+	if v.rsa {
 		f = append(f, "rsa")
 	}
 	if !v.lifeOK {
@@ -364,30 +404,8 @@ func (v verdictParts) failing() []string {
 	return f
 }
 
-func (v verdictParts) mustReject() bool { return len(v.failing()) > 0 }
-func (v verdictParts) mustAccept() bool { return len(v.failing()) == 0 && v.rsa == "no" }
-
-// explainedByKnown reports whether an acceptance that the statement forbids is exactly
-// what the listed known findings predict: the verifier looks at the LAST certificate of
-// the chain (kfChainLast) and does not recognise RSA-PSS as RSA (kfRSAPSS).
-func explainedByKnown(chain [][]byte, hashes []multihash.DecodedMultihash, now time.Time) bool {
-	target := chain[0]
-	if len(chain) > 1 {
-		if !known(kfChainLast) {
-			return false
-		}
-		target = chain[len(chain)-1]
-	}
-	v := judge(target, hashes, now)
-	for _, f := range v.failing() {
-		if f == "rsa" && v.rsaPSS && known(kfRSAPSS) {
-			continue
-		}
-		return false
-	}
-	// something known must actually be needed
-	return len(chain) > 1 || v.rsaPSS
-}
+// accept is the reference predicate of the statement.
+func (v verdictParts) accept() bool { return len(v.failing()) == 0 }
 
 func TestVerifier(t *testing.T) {
 	name := t.Name()
@@ -396,29 +414,43 @@ func TestVerifier(t *testing.T) {
 		days := rapid.IntRange(0, 400).Draw(rt, "days")
 		secs := rapid.IntRange(0, 86399).Draw(rt, "secs")
 		sub := rapid.SampledFrom([]time.Duration{0, 0, 1, time.Millisecond, 500 * time.Millisecond, time.Second - 1}).Draw(rt, "subsec")
-		nchain := rapid.SampledFrom([]int{0, 1, 1, 1, 1, 1, 1, 2, 2, 2}).Draw(rt, "chainLen")
+		nchain := rapid.SampledFrom([]int{1, 1, 1, 1, 1, 1, 2, 2, 2, 0}).Draw(rt, "chainLen")
+		f0, hashFault := drawFaults(rt, "c0")
 		var specs []certSpec
-		for i := 0; i < nchain; i++ {
-			specs = append(specs, drawCertSpec(rt, fmt.Sprintf("c%d", i), false))
+		if nchain >= 1 {
+			specs = append(specs, drawCertSpec(rt, "c0", f0))
 		}
-		if nchain == 2 && rapid.Bool().Draw(rt, "sameTwice") {
-			specs[1] = specs[0]
+		if nchain == 2 {
+			if rapid.IntRange(0, 3).Draw(rt, "sameTwice") == 0 {
+				specs = append(specs, specs[0])
+			} else {
+				f1, _ := drawFaults(rt, "c1")
+				specs = append(specs, drawCertSpec(rt, "c1", f1))
+			}
 		}
-		nh := rapid.SampledFrom([]int{0, 1, 1, 1, 2, 2, 3}).Draw(rt, "nHashes")
 		type hk struct {
 			Kind string
 			Seed int
 		}
 		var hks []hk
-		for i := 0; i < nh; i++ {
-			hks = append(hks, hk{rapid.SampledFrom(hashKinds).Draw(rt, "hashKind"), rapid.IntRange(0, 255).Draw(rt, "hashSeed")})
+		nd := rapid.SampledFrom([]int{0, 0, 1, 1, 2}).Draw(rt, "nDistractors")
+		if hashFault && nd == 0 && rapid.Bool().Draw(rt, "someDistractor") {
+			nd = 1 // an empty list is one way of not listing the hash, a wrong entry the other
 		}
+		for i := 0; i < nd; i++ {
+			hks = append(hks, hk{rapid.SampledFrom(distractors).Draw(rt, "hashKind"), rapid.IntRange(0, 255).Draw(rt, "hashSeed")})
+		}
+		if !hashFault {
+			at := rapid.IntRange(0, len(hks)).Draw(rt, "rightHashAt")
+			hks = append(hks[:at], append([]hk{{"sha256(c0)", 0}}, hks[at:]...)...)
+		}
+		nh := len(hks)
 
 		var (
-			got      error
-			parts    verdictParts
-			excluded bool
-			hashStr  []string
+			got        error
+			parts      verdictParts
+			hashStr    []string
+			lastAccept bool
 		)
 		hx.Bubble(t, rt, func() {
 			base := time.Now() // 2000-01-01T00:00:00Z
@@ -444,24 +476,18 @@ func TestVerifier(t *testing.T) {
 				return
 			}
 			parts = judge(chain[0], hashes, now)
+			lastAccept = judge(chain[len(chain)-1], hashes, now).accept()
 			desc := func() string {
-				return fmt.Sprintf("now=%s chain=%+v hashes=%v server-cert conjuncts: failing=%v rsa=%s", ts(now), specs, hashStr, parts.failing(), parts.rsa)
+				return fmt.Sprintf("now=%s chain=%+v hashes=%v server-cert conjuncts: failing=%v", ts(now), specs, hashStr, parts.failing())
 			}
-			if accepted && parts.mustReject() {
-				if explainedByKnown(chain, hashes, now) {
-					excluded = true
-					return
-				}
+			if accepted && !parts.accept() {
 				rt.Fatalf("verifier ACCEPTED a server certificate the statement forbids: %s", desc())
 			}
-			if !accepted && parts.mustAccept() && len(chain) == 1 {
-				rt.Fatalf("verifier REJECTED (%v) a certificate that is listed, not RSA, <= 14 d and currently valid: %s", got, desc())
+			if !accepted && parts.accept() {
+				rt.Fatalf("verifier REJECTED (%v) a server certificate that is listed, not RSA, <= 14 d and currently valid: %s", got, desc())
 			}
 		})
 
-		if excluded {
-			stats.Excluded(name)
-		}
 		labels := []string{fmt.Sprintf("chain=%d", nchain), fmt.Sprintf("hashes=%d", nh)}
 		fpParts := []string{fmt.Sprint(nchain), fmt.Sprint(sub), strings.Join(hashStr, "+")}
 		nontrivial := false
@@ -472,16 +498,16 @@ func TestVerifier(t *testing.T) {
 			if len(f) == 1 {
 				labels = append(labels, "only:"+f[0])
 			}
-			if parts.rsa == "ambiguous" && len(f) == 0 {
-				labels = append(labels, fmt.Sprintf("ambiguous-rsa-accepted=%v", got == nil))
-			}
 			if got == nil {
 				labels = append(labels, "accepted")
 			} else {
 				labels = append(labels, "rejected")
 			}
-			if nchain == 2 && got != nil && parts.mustAccept() {
-				labels = append(labels, "note:chain2-valid-first-cert-rejected")
+			if nchain == 2 {
+				// is the verdict decided by the FIRST certificate although the last one would decide otherwise?
+				if lastAccept != parts.accept() {
+					labels = append(labels, "chain2-first-and-last-cert-disagree")
+				}
 			}
 			if specs[0].ValClass == "na-edge" {
 				labels = append(labels, fmt.Sprintf("na-edge-subsec0=%v", sub == 0))
@@ -493,9 +519,6 @@ func TestVerifier(t *testing.T) {
 		for _, h := range hashStr {
 			labels = append(labels, "hash:"+h)
 		}
-		if excluded {
-			labels = append(labels, "excluded-by-known-finding")
-		}
 		stats.Case(name, strings.Join(fpParts, "|"), nontrivial, labels...)
 		if stats.WantSample(name) {
 			stats.Sample(name, map[string]any{"days": days, "secs": secs, "subsec_ns": int64(sub), "chain": specs, "hashes": hks, "accepted": got == nil, "failing": parts.failing()})
@@ -504,18 +527,7 @@ func TestVerifier(t *testing.T) {
 }
 
 // ---------------------------------------------------------------------------
-// witnesses of the suspected defects
-
-func witness(t *testing.T, id string, run func() (bool, string)) {
-	t.Helper()
-	if !kf.Known(id) && known(id) { // development override only
-		if v, d := run(); v {
-			fmt.Printf("KNOWN-FINDING: property=C18 (assumed via VERIF_ASSUME_KNOWN) %s [%s]\n", d, id)
-		}
-		return
-	}
-	kf.Witness(t, id, run)
-}
+// witnesses of the two defects found by this check (repaired in /repo; kept as regression tests)
 
 // TestWitness_chain_last_cert: verifyRawCerts pins rawCerts[len-1], but crypto/tls
 // authenticates the handshake with rawCerts[0]. A server that owns ANY key pair can
@@ -524,7 +536,7 @@ func witness(t *testing.T, id string, run func() (bool, string)) {
 // completes with the un-pinned certificate as the peer's leaf.
 func TestWitness_chain_last_cert(t *testing.T) {
 	hx.Shard0(t)
-	witness(t, kfChainLast, func() (violated bool, detail string) {
+	kf.Witness(t, kfChainLast, func() (violated bool, detail string) {
 		synctest.Test(t, func(t *testing.T) {
 			pool.init()
 			now := time.Now()
@@ -590,7 +602,7 @@ func TestWitness_chain_last_cert(t *testing.T) {
 // the RSA test in verifyRawCerts lists only the PKCS#1 v1.5 signature algorithms.
 func TestWitness_rsa_pss(t *testing.T) {
 	hx.Shard0(t)
-	witness(t, kfRSAPSS, func() (violated bool, detail string) {
+	kf.Witness(t, kfRSAPSS, func() (violated bool, detail string) {
 		synctest.Test(t, func(t *testing.T) {
 			now := time.Now()
 			var accepted []string
